@@ -21,12 +21,14 @@ func TestRoots(t *testing.T) {
 	if len(specs) == 0 {
 		specs = []string{"*Header.Unmarshal"}
 	}
+	shared := NewEngine(prog.SPkg, prog.CallGraph())
 	for _, spec := range specs {
 		fn := prog.Func(spec)
 		if fn == nil {
 			t.Fatalf("no func %s", spec)
 		}
 		e := NewEngine(prog.SPkg, prog.CallGraph())
+		e.Summaries = shared.Summaries
 		e.SpareOnReflectSet["packetBuffer"] = true
 		if os.Getenv("TRACE") != "" {
 			e.Trace = func(s string) { fmt.Println("TRACE", s) }
@@ -49,6 +51,9 @@ func TestRoots(t *testing.T) {
 			} else if os.Getenv("VERBOSE") != "" {
 				fmt.Printf("  ok   %s @%s seen=%d\n", o.Key, prog.Pos(o.Pos), o.Seen)
 			}
+		}
+		if sm := e.Summaries[fn]; sm != nil {
+			fmt.Printf("   summary: nilPossible=%v minLenOnNil=%d\n", sm.NilPossible, sm.MinLenOnNil)
 		}
 		fmt.Printf("%-45s obligations=%d failed=%d steps=%d exceeded=%v %v\n", spec, len(e.Obls), fails, e.Steps, e.Exceeded, time.Since(st))
 	}
